@@ -241,8 +241,10 @@ func discharge(dir string, idx int, vc *VC, o *Obligation, timeoutS int, waitAll
 	switch {
 	case sawUnsat:
 		o.Status = "discharged"
-		os.Remove(file)
-		o.Aux = ""
+		if os.Getenv("GOVC_KEEP") == "" {
+			os.Remove(file)
+			o.Aux = ""
+		}
 	case sawSat:
 		o.Status = "refuted"
 		o.Model = getModel(file, decisive.solver, timeoutS)
